@@ -250,6 +250,34 @@ def run(repo, chk):
         ok = bool(cb) and all(any(fn.before(c, s) or Fn.find_guards(fn.guard_atoms_x(c), "truth", True, ["self.alpn_cb"]) for c in cb) for s in sets)
         chk.ob("R3", f"{fname}: alpn_cb (transport parameter validation) runs before the state advances", ok, "callback no longer precedes the transition", fn.loc(fn.node))
 
+    # ---- R4 a server configured with ALPN protocols never completes without a common one ---------------
+    shh = Fn(repo, "tls:Context._server_handle_hello")
+    alpn = [c for c in shh.calls(name="negotiate") if c.args and norm(c.args[0]) == "self._alpn_protocols"]
+    ok = len(alpn) == 1 and len(alpn[0].args) >= 3 and "AlertHandshakeFailure" in norm(alpn[0].args[2]) and norm(alpn[0].args[1]).endswith(".alpn_protocols")
+    if ok:
+        cfg_ = shh.cfg
+        configured = natom("self._alpn_protocols is not None")
+        # with protocols configured, no normal path through the handler avoids the negotiation (which raises when
+        # nothing is common - an empty or absent client list included)
+        ok = not shh.reaches_assuming(cfg_.entry, cfg_.exit, [configured], avoid={cfg_.done_of(alpn[0])}) and not [st for st, t, v in shh.assigns(chain="self._alpn_protocols")]
+    chk.ob("R4", "_server_handle_hello: with ALPN protocols configured every accepted ClientHello passes the ALPN negotiation", ok, "a ClientHello without (usable) ALPN protocols completes the handshake although the server requires one of its protocols", shh.loc(shh.node))
+    # ---- R4 the key schedule handed out for a cipher suite is the one built for that suite --------------
+    ksp_init = Fn(repo, "tls:KeyScheduleProxy.__init__")
+    ksp_sel = Fn(repo, "tls:KeyScheduleProxy.select")
+    sel = [norm(r.value) for r in ksp_sel.returns() if r.value is not None]
+    par = [a.arg for a in ksp_sel.node.args.args][1:2]
+    table = sel[0].split("[")[0] if sel and "[" in sel[0] else None
+    ok = len(sel) == 1 and bool(par) and sel[0] == f"{table}[{par[0]}]"
+    built = False
+    for n in ast.walk(ksp_init.node):
+        # {c: KeySchedule(c) for c in suites} / dict(map(lambda c: (c, KeySchedule(c)), suites)) / table[c] = KeySchedule(c)
+        if isinstance(n, ast.DictComp) and isinstance(n.key, ast.Name) and norm(n.value) == f"KeySchedule({n.key.id})":
+            built = True
+        if isinstance(n, ast.Lambda) and isinstance(n.body, ast.Tuple) and len(n.body.elts) == 2 and isinstance(n.body.elts[0], ast.Name) and norm(n.body.elts[1]) == f"KeySchedule({n.body.elts[0].id})":
+            built = True
+        if isinstance(n, ast.Assign) and isinstance(n.targets[0], ast.Subscript) and isinstance(n.targets[0].slice, ast.Name) and norm(n.value) == f"KeySchedule({n.targets[0].slice.id})":
+            built = True
+    chk.ob("R4", "KeyScheduleProxy.select(suite) returns the schedule constructed for exactly that suite", ok and built, f"select returns {sel}; table keyed by suite: {built}: the client would derive / report keys for another suite than the server selected", ksp_sel.loc(ksp_sel.node))
     # ---- R4 negotiate -----------------------------------------------------------------------------
     ng = Fn(repo, "tls:negotiate")
     rets = ng.returns()
